@@ -30,14 +30,14 @@ def concreteDS : DistSem where
     match table[d]?, key with
     | some (m, _), seed :: path =>
       let kd := Key.keyData (Key.rootOfSeed seed) path
-      .int (kd.2.toNat % m)
-    | _, _ => .int 0
-  lp := fun d v args =>
-    match table[d]?, v with
-    | some (_, a, b, c, dd), .int x =>
-      let s := match args with | .tup as => argSum as 0 | _ => 0
-      a + b * x + c * s * x + dd * s
+      (kd.2.toNat % m : Nat)
     | _, _ => 0
+  lp := fun d v args =>
+    match table[d]? with
+    | some (_, a, b, c, dd) =>
+      let s := match args with | .tup as => argSum as 0 | _ => 0
+      a + b * v + c * s * v + dd * s
+    | none => 0
 
 /-! parsing -/
 
@@ -62,14 +62,23 @@ def showComp : Comp → Sexp
   | .s a => .atom a
   | .i n => .atom s!"#{n}"
 
+def cval : Sexp → Option CVal
+  | .atom s => s.toInt?.map CVal.plain
+  | .list [.atom "m", f, .atom s] => do pure (.masked (← f.bool?) (← s.toInt?))
+  | _ => none
+
+def showCVal : CVal → Sexp
+  | .plain v => Sexp.ofInt v
+  | .masked f v => .list [.atom "m", Sexp.ofBool f, Sexp.ofInt v]
+
 def cmap : Sexp → Option CMap
   | .list es => es.mapM fun
-    | .list [.list p, v] => do pure (← p.mapM comp, ← val v)
+    | .list [.list p, v] => do pure (← p.mapM comp, ← cval v)
     | _ => none
   | _ => none
 
 def showCMap (c : CMap) : Sexp :=
-  .list (c.map fun (p, v) => .list [.list (p.map showComp), showVal v])
+  .list (c.map fun (p, v) => .list [.list (p.map showComp), showCVal v])
 
 partial def expr : Sexp → Option Expr
   | .atom s => s.toInt?.map Expr.lit
